@@ -1,21 +1,28 @@
 ------------------------------- MODULE CedarExt -------------------------------
 (***************************************************************************)
-(* Cedar extension types.  Values:                                         *)
+(* Cedar extension types (property C07).  Values:                          *)
 (*   <<"ext", "decimal", i64>>     value * 10^4                            *)
 (*   <<"ext", "datetime", i64>>    milliseconds since the Unix epoch       *)
 (*   <<"ext", "duration", i64>>    milliseconds                            *)
 (*   <<"ext", "ipaddr", ver, addr, prefix>>  ver in {4, 6}; addr = 4 octets*)
 (*                                  or 8 16-bit groups; prefix 0..32 / 128 *)
+(*                                  (always explicit; default 32 / 128)    *)
 (* ExtCall(fn, args) gives <<"ok", v>>, <<"err", "ext">> for a failing     *)
-(* constructor or an overflowing operation, <<"err", "type">> for wrongly  *)
-(* typed arguments.  (Grown in CedarExtFull; this module holds the part    *)
-(* the core evaluator needs.)                                              *)
+(* constructor or an operation whose exact result is not representable,    *)
+(* <<"err", "type">> for wrongly typed arguments, <<"err", "arity">> for a *)
+(* wrong number of arguments, <<"err", "unknownFn">> for an unknown name.  *)
+(*                                                                         *)
+(* The constructors are acceptors over code-point sequences written from   *)
+(* the documented string forms; every operation is defined on the          *)
+(* represented value (i64 arithmetic through Int64, TLC ints are 32-bit).  *)
+(* Names local to this module carry the prefix X.                          *)
 (***************************************************************************)
 EXTENDS Integers, Sequences, Int64, CedarStrings
 
 ExtOk(v) == <<"ok", v>>
 ExtErr == <<"err", "ext">>
 ExtTypeErr == <<"err", "type">>
+ExtArityErr == <<"err", "arity">>
 
 IsStrV(v) == v[1] = "str"
 IsExtOf(v, ty) == v[1] = "ext" /\ v[2] = ty
@@ -25,21 +32,81 @@ ExtComparable(v) == v[2] \in {"datetime", "duration"}
 ExtLt(a, b) == Lt(a[3], b[3])
 ExtLe(a, b) == Le(a[3], b[3])
 
+XDecV(x) == <<"ext", "decimal", x>>
+XDtV(x) == <<"ext", "datetime", x>>
+XDurV(x) == <<"ext", "duration", x>>
+XIpV(ver, addr, pre) == <<"ext", "ipaddr", ver, addr, pre>>
+XBoolV(b) == <<"bool", b>>
+XLongV(x) == <<"long", x>>
+
+----------------------------------------------------------------------------
+\* numbers written in ASCII digits
+
+XBad == 0 - 1
+
+\* drop the leading zeros of a digit sequence (may leave the empty sequence = 0)
+RECURSIVE XFirstNonZero(_, _)
+XFirstNonZero(ds, i) == IF i > Len(ds) THEN i ELSE IF ds[i] = 0 THEN XFirstNonZero(ds, i + 1) ELSE i
+XStripZ(ds) == Slice(ds, XFirstNonZero(ds, 1), Len(ds))
+
+RECURSIVE XAccDigits(_, _, _, _, _)
+XAccDigits(ds, i, hi, base, acc) == IF i > hi THEN acc ELSE XAccDigits(ds, i + 1, hi, base, acc * base + ds[i])
+
+\* magnitude (little-endian base-10^4 limbs, any length) of a digit sequence
+XLimbsOf(ds) ==
+  LET n == Len(ds)
+      nl == (n + 3) \div 4
+  IN IF n = 0 THEN <<0>>
+     ELSE [j \in 1..nl |->
+             LET hi == n - 4 * (j - 1)
+                 lo == IF hi - 3 < 1 THEN 1 ELSE hi - 3
+             IN XAccDigits(ds, lo, hi, 10, 0)]
+
+\* a natural number in ASCII digits: <<"ok", magnitude>>, or <<"big">> when it has more
+\* than 20 significant digits (then it certainly exceeds 2^64)
+XNat(cps) == LET ds == XStripZ(Digits(cps))
+             IN IF Len(ds) > 20 THEN <<"big">> ELSE <<"ok", XLimbsOf(ds)>>
+
+\* value of a short ASCII digit string (at most 9 digits) as a TLC integer
+XSmallDec(cps) == XAccDigits(Digits(cps), 1, Len(cps), 10, 0)
+XDig2(s, i) == (s[i] - 48) * 10 + (s[i + 1] - 48)
+XDigitsAt(s, idxs) == \A i \in idxs : IsDigit(s[i])
+
+\* canonical printing
+RECURSIVE XDigitsOfNat(_)
+XDigitsOfNat(n) == IF n < 10 THEN <<n>> ELSE XDigitsOfNat(n \div 10) \o <<n % 10>>
+XPad4(n) == <<n \div 1000, (n \div 100) % 10, (n \div 10) % 10, n % 10>>
+XPad(n, w) == LET ds == XDigitsOfNat(n) IN [i \in 1..(w - Len(ds)) |-> 0] \o ds
+RECURSIVE XTopLimb(_, _)
+XTopLimb(m, i) == IF i = 1 THEN 1 ELSE IF m[i] # 0 THEN i ELSE XTopLimb(m, i - 1)
+RECURSIVE XLowLimbs(_, _)
+XLowLimbs(m, i) == IF i = 0 THEN <<>> ELSE XPad4(m[i]) \o XLowLimbs(m, i - 1)
+XDigitsOfM(m) == LET t == XTopLimb(m, Len(m)) IN XDigitsOfNat(m[t]) \o XLowLimbs(m, t - 1)
+XCps(ds) == [i \in 1..Len(ds) |-> ds[i] + 48]
+XPrintI64(x) == (IF x[1] THEN <<45>> ELSE <<>>) \o XCps(XDigitsOfM(x[2]))
+
 ----------------------------------------------------------------------------
 \* decimal:  -?d+.d{1,4}   value*10^4 within i64
 ParseDecimal(s) ==
   LET neg == Len(s) > 0 /\ s[1] = 45
       body == IF neg THEN Slice(s, 2, Len(s)) ELSE s
       dot == IndexOf(body, 46)
-      ip == Slice(body, 1, dot - 1)
-      fp == Slice(body, dot + 1, Len(body))
-  IN IF dot = 0 \/ Len(ip) = 0 \/ Len(fp) = 0 \/ ~AllDigits(ip) \/ ~AllDigits(fp) THEN ExtErr
-     ELSE IF Len(fp) > 4 THEN ExtErr
-     ELSE IF Len(ip) > 24 THEN ExtErr   \* cannot fit (leading zeros beyond this are not modelled)
-     ELSE LET pad == [i \in 1..(4 - Len(fp)) |-> 0]
-              m == OfDigits(Digits(ip) \o Digits(fp) \o pad)
-              r == Mk(neg, m)
-          IN IF r[1] = "ok" THEN ExtOk(<<"ext", "decimal", r[2]>>) ELSE ExtErr
+      ipart == Slice(body, 1, dot - 1)
+      fpart == Slice(body, dot + 1, Len(body))
+  IN IF dot = 0 \/ Len(ipart) = 0 \/ Len(fpart) = 0 \/ ~AllDigits(ipart) \/ ~AllDigits(fpart) THEN ExtErr
+     ELSE IF Len(fpart) > 4 THEN ExtErr
+     ELSE LET iz == XStripZ(Digits(ipart))
+          IN IF Len(iz) > 15 THEN ExtErr            \* |value| >= 10^15 > 922337203685477.5808
+             ELSE LET pad == [i \in 1..(4 - Len(fpart)) |-> 0]
+                      r == Mk(neg, XLimbsOf(iz \o Digits(fpart) \o pad))
+                  IN IF r[1] = "ok" THEN ExtOk(XDecV(r[2])) ELSE ExtErr
+
+\* canonical spelling: optional -, integer part, ".", exactly four fraction digits
+XPrintDecimal(x) ==
+  LET ds == XDigitsOfM(x[2])
+      pd == IF Len(ds) < 5 THEN [i \in 1..(5 - Len(ds)) |-> 0] \o ds ELSE ds
+      n == Len(pd)
+  IN (IF x[1] THEN <<45>> ELSE <<>>) \o XCps(Slice(pd, 1, n - 4)) \o <<46>> \o XCps(Slice(pd, n - 3, n))
 
 DecimalCmp(fn, a, b) ==
   IF ~(IsExtOf(a, "decimal") /\ IsExtOf(b, "decimal")) THEN ExtTypeErr
@@ -49,10 +116,271 @@ DecimalCmp(fn, a, b) ==
                          [] fn = "greaterThanOrEqual" -> Le(b[3], a[3])>>)
 
 ----------------------------------------------------------------------------
+\* ipaddr.  IPv4: four decimal octets 0..255 without leading zeros, separated by ".".
+\* IPv6: eight groups of 1..4 hex digits separated by ":", where one run of one or more zero
+\* groups may be written "::"; no embedded dotted quad.  Optional "/p": decimal without leading
+\* zeros, p <= 32 (IPv4) or 128 (IPv6).
+XIsHex(ch) == IsDigit(ch) \/ (ch >= 97 /\ ch <= 102) \/ (ch >= 65 /\ ch <= 70)
+XHexVal(ch) == IF IsDigit(ch) THEN ch - 48 ELSE IF ch >= 97 THEN ch - 87 ELSE ch - 55
+XNoLeadingZero(t) == Len(t) = 1 \/ t[1] # 48
+
+XDecOctet(t) ==
+  IF Len(t) < 1 \/ Len(t) > 3 \/ ~AllDigits(t) \/ ~XNoLeadingZero(t) THEN XBad
+  ELSE IF XSmallDec(t) > 255 THEN XBad ELSE XSmallDec(t)
+
+XHexGroup(t) ==
+  IF Len(t) < 1 \/ Len(t) > 4 \/ (\E i \in 1..Len(t) : ~XIsHex(t[i])) THEN XBad
+  ELSE XAccDigits([i \in 1..Len(t) |-> XHexVal(t[i])], 1, Len(t), 16, 0)
+
+XParseV4(t) ==
+  LET ps == Split(t, 46)
+  IN IF Len(ps) # 4 THEN <<"bad">>
+     ELSE LET os == [i \in 1..4 |-> XDecOctet(ps[i])]
+          IN IF \E i \in 1..4 : os[i] < 0 THEN <<"bad">> ELSE <<"ok", 4, os>>
+
+XColonGroups(t) == IF Len(t) = 0 THEN <<>> ELSE Split(t, 58)
+XParseV6(t) ==
+  LET dcs == {i \in 1..(Len(t) - 1) : t[i] = 58 /\ t[i + 1] = 58}
+      Chk(vs) == IF \E i \in 1..8 : vs[i] < 0 THEN <<"bad">> ELSE <<"ok", 6, vs>>
+  IN IF \E i \in dcs, j \in dcs : i # j THEN <<"bad">>          \* "::" at most once (":::" counts twice)
+     ELSE IF dcs = {}
+          THEN LET gs == Split(t, 58)
+               IN IF Len(gs) # 8 THEN <<"bad">> ELSE Chk([i \in 1..8 |-> XHexGroup(gs[i])])
+     ELSE LET k == CHOOSE i \in dcs : TRUE
+              hg == XColonGroups(Slice(t, 1, k - 1))
+              tg == XColonGroups(Slice(t, k + 2, Len(t)))
+          IN IF Len(hg) + Len(tg) > 7 THEN <<"bad">>            \* "::" stands for at least one group
+             ELSE Chk([i \in 1..Len(hg) |-> XHexGroup(hg[i])]
+                      \o [i \in 1..(8 - Len(hg) - Len(tg)) |-> 0]
+                      \o [i \in 1..Len(tg) |-> XHexGroup(tg[i])])
+
+XParseAddr(t) ==
+  LET dots == IndexOf(t, 46) # 0
+      colons == IndexOf(t, 58) # 0
+  IN IF dots /\ ~colons THEN XParseV4(t)
+     ELSE IF colons /\ ~dots THEN XParseV6(t)
+     ELSE <<"bad">>                                            \* neither, or IPv4-in-IPv6
+
+XParsePrefix(t, maxp) ==
+  IF Len(t) < 1 \/ Len(t) > 3 \/ ~AllDigits(t) \/ ~XNoLeadingZero(t) THEN XBad
+  ELSE IF XSmallDec(t) > maxp THEN XBad ELSE XSmallDec(t)
+
+XMaxPrefix(ver) == IF ver = 4 THEN 32 ELSE 128
+
+XParseIp(s) ==
+  LET slash == IndexOf(s, 47)
+      a == XParseAddr(IF slash = 0 THEN s ELSE Slice(s, 1, slash - 1))
+  IN IF a[1] # "ok" THEN ExtErr
+     ELSE IF slash = 0 THEN ExtOk(XIpV(a[2], a[3], XMaxPrefix(a[2])))
+     ELSE LET pre == XParsePrefix(Slice(s, slash + 1, Len(s)), XMaxPrefix(a[2]))
+          IN IF pre < 0 THEN ExtErr ELSE ExtOk(XIpV(a[2], a[3], pre))
+
+\* canonical spelling: all octets / all eight groups in lower-case hex, explicit prefix
+XHexDigitCp(d) == IF d < 10 THEN d + 48 ELSE d + 87
+RECURSIVE XHexOf(_)
+XHexOf(n) == IF n < 16 THEN <<XHexDigitCp(n)>> ELSE XHexOf(n \div 16) \o <<XHexDigitCp(n % 16)>>
+RECURSIVE XJoin(_, _, _)
+XJoin(parts, sep, i) == IF i > Len(parts) THEN <<>>
+                        ELSE (IF i > 1 THEN <<sep>> ELSE <<>>) \o parts[i] \o XJoin(parts, sep, i + 1)
+XPrintIp(v) ==
+  (IF v[3] = 4 THEN XJoin([i \in 1..4 |-> XCps(XDigitsOfNat(v[4][i]))], 46, 1)
+   ELSE XJoin([i \in 1..8 |-> XHexOf(v[4][i])], 58, 1))
+  \o <<47>> \o XCps(XDigitsOfNat(v[5]))
+
+\* An ipaddr value denotes the set of addresses sharing its first `prefix` bits.
+\* x is in range y iff that set is contained in y's: same family, y's prefix is not longer,
+\* and the two addresses agree on y's prefix bits.
+RECURSIVE XPow2(_)
+XPow2(k) == IF k = 0 THEN 1 ELSE 2 * XPow2(k - 1)
+XGroupBits(ver) == IF ver = 4 THEN 8 ELSE 16
+XSamePrefixBits(a, b, n, w) ==
+  LET full == n \div w
+      part == n % w
+  IN /\ \A i \in 1..full : a[i] = b[i]
+     /\ \/ part = 0
+        \/ (a[full + 1] \div XPow2(w - part)) = (b[full + 1] \div XPow2(w - part))
+XIpInRange(x, y) == /\ x[3] = y[3]
+                    /\ y[5] <= x[5]
+                    /\ XSamePrefixBits(x[4], y[4], y[5], XGroupBits(x[3]))
+
+XLoopback4 == XIpV(4, <<127, 0, 0, 0>>, 8)                     \* 127.0.0.0/8
+XLoopback6 == XIpV(6, <<0, 0, 0, 0, 0, 0, 0, 1>>, 128)         \* ::1/128
+XMulticast4 == XIpV(4, <<224, 0, 0, 0>>, 4)                    \* 224.0.0.0/4
+XMulticast6 == XIpV(6, <<65280, 0, 0, 0, 0, 0, 0, 0>>, 8)      \* ff00::/8
+XIsLoopback(x) == XIpInRange(x, IF x[3] = 4 THEN XLoopback4 ELSE XLoopback6)
+XIsMulticast(x) == XIpInRange(x, IF x[3] = 4 THEN XMulticast4 ELSE XMulticast6)
+
+----------------------------------------------------------------------------
+\* datetime:  YYYY-MM-DD | YYYY-MM-DDThh:mm:ss(.SSS)?(Z|(+|-)hhmm)
+\* proleptic Gregorian calendar, years 0000..9999, hh < 24, mm < 60, ss < 60,
+\* offset hh < 24 and mm < 60; the value is the UTC instant (offset subtracted).
+XDayMs == 86400000
+XIsLeap(y) == (y % 4 = 0 /\ y % 100 # 0) \/ y % 400 = 0
+XDaysInMonth(y, mo) ==
+  CASE mo \in {1, 3, 5, 7, 8, 10, 12} -> 31
+    [] mo \in {4, 6, 9, 11} -> 30
+    [] mo = 2 -> (IF XIsLeap(y) THEN 29 ELSE 28)
+    [] OTHER -> 0
+RECURSIVE XDaysBeforeMonth(_, _)
+XDaysBeforeMonth(y, mo) == IF mo <= 1 THEN 0 ELSE XDaysInMonth(y, mo - 1) + XDaysBeforeMonth(y, mo - 1)
+\* number of leap years among 0 .. y-1
+XLeapsBefore(y) == IF y = 0 THEN 0 ELSE 1 + (y - 1) \div 4 - (y - 1) \div 100 + (y - 1) \div 400
+\* days from 1970-01-01 to y-mo-d (719528 = days from 0000-01-01 to 1970-01-01)
+XDayNumber(y, mo, d) == 365 * y + XLeapsBefore(y) + XDaysBeforeMonth(y, mo) + (d - 1) - 719528
+
+\* days * 86400000 + ms (|days| < 4*10^6, |ms| < 2^31) as an i64
+XInstant(days, ms) == Add(Mul(OfInt(days), OfInt(XDayMs))[2], OfInt(ms))[2]
+
+XParseDatetime(s) ==
+  IF Len(s) < 10 THEN ExtErr
+  ELSE IF ~XDigitsAt(s, {1, 2, 3, 4, 6, 7, 9, 10}) \/ s[5] # 45 \/ s[8] # 45 THEN ExtErr
+  ELSE
+    LET y == XDig2(s, 1) * 100 + XDig2(s, 3)
+        mo == XDig2(s, 6)
+        d == XDig2(s, 9)
+        dateOk == mo >= 1 /\ mo <= 12 /\ d >= 1 /\ d <= XDaysInMonth(y, mo)
+        days == XDayNumber(y, mo, d)
+    IN IF Len(s) = 10 THEN (IF dateOk THEN ExtOk(XDtV(XInstant(days, 0))) ELSE ExtErr)
+       ELSE IF Len(s) < 20 THEN ExtErr
+       ELSE IF s[11] # 84 \/ ~XDigitsAt(s, {12, 13, 15, 16, 18, 19}) \/ s[14] # 58 \/ s[17] # 58 THEN ExtErr
+       ELSE
+         LET h == XDig2(s, 12)
+             mi == XDig2(s, 15)
+             sec == XDig2(s, 18)
+             hasMs == s[20] = 46
+             msOk == ~hasMs \/ (Len(s) >= 23 /\ XDigitsAt(s, {21, 22, 23}))
+             ms == IF hasMs THEN (s[21] - 48) * 100 + XDig2(s, 22) ELSE 0
+             zone == Slice(s, IF hasMs THEN 24 ELSE 20, Len(s))
+             isZ == zone = <<90>>
+             zoneOk == isZ \/ (/\ Len(zone) = 5 /\ zone[1] \in {43, 45} /\ XDigitsAt(zone, {2, 3, 4, 5})
+                               /\ XDig2(zone, 2) < 24 /\ XDig2(zone, 4) < 60)
+             offMin == IF isZ THEN 0
+                       ELSE (IF zone[1] = 43 THEN 1 ELSE 0 - 1) * (XDig2(zone, 2) * 60 + XDig2(zone, 4))
+             tod == (h * 3600 + mi * 60 + sec) * 1000 + ms
+         IN IF ~msOk THEN ExtErr
+            ELSE IF ~zoneOk \/ ~dateOk \/ h >= 24 \/ mi >= 60 \/ sec >= 60 THEN ExtErr
+            ELSE ExtOk(XDtV(XInstant(days, tod - offMin * 60000)))
+
+\* floor(x / 86400000) as an i64, and the non-negative remainder as a TLC integer
+XDayIndex(x) == DivFloor(DivFloor(x, 1000), 86400)
+XTimeOfDay(x) == ModFloor(DivFloor(x, 1000), 86400) * 1000 + ModFloor(x, 1000)
+
+\* canonical spelling of an instant whose UTC year is within 0000..9999 (else <<>>):
+\* YYYY-MM-DDThh:mm:ss.SSSZ, by the civil-from-days algorithm (independent of XDayNumber)
+XMinDay == 0 - 719528          \* 0000-01-01
+XMaxDay == 2932896             \* 9999-12-31
+XCivil(z0) ==
+  LET z == z0 + 719468
+      era == z \div 146097
+      doe == z - era * 146097
+      yoe == (doe - doe \div 1460 + doe \div 36524 - doe \div 146096) \div 365
+      doy == doe - (365 * yoe + yoe \div 4 - yoe \div 100)
+      mp == (5 * doy + 2) \div 153
+      d == doy - (153 * mp + 2) \div 5 + 1
+      mo == IF mp < 10 THEN mp + 3 ELSE mp - 9
+      y == yoe + era * 400 + (IF mo <= 2 THEN 1 ELSE 0)
+  IN <<y, mo, d>>
+XDtPrintable(x) == LET di == XDayIndex(x)
+                   IN IsSmall(di) /\ ToInt(di) >= XMinDay /\ ToInt(di) <= XMaxDay
+XPrintDatetime(x) ==
+  LET ymd == XCivil(ToInt(XDayIndex(x)))
+      tod == XTimeOfDay(x)
+  IN XCps(XPad(ymd[1], 4)) \o <<45>> \o XCps(XPad(ymd[2], 2)) \o <<45>> \o XCps(XPad(ymd[3], 2))
+     \o <<84>> \o XCps(XPad(tod \div 3600000, 2)) \o <<58>> \o XCps(XPad((tod \div 60000) % 60, 2))
+     \o <<58>> \o XCps(XPad((tod \div 1000) % 60, 2)) \o <<46>> \o XCps(XPad(tod % 1000, 3)) \o <<90>>
+
+----------------------------------------------------------------------------
+\* duration:  -?(Nd)?(Nh)?(Nm)?(Ns)?(Nms)?   at least one unit, units in this order, each
+\* at most once, N a natural number in decimal digits; the value is the exact sum in
+\* milliseconds and must fit an i64.
+XUnitMs(rank) == CASE rank = 1 -> 86400000 [] rank = 2 -> 3600000 [] rank = 3 -> 60000
+                   [] rank = 4 -> 1000 [] rank = 5 -> 1
+RECURSIVE XFirstNonDigit(_, _)
+XFirstNonDigit(t, i) == IF i > Len(t) THEN i ELSE IF IsDigit(t[i]) THEN XFirstNonDigit(t, i + 1) ELSE i
+
+\* <<"ok", magnitude>> | <<"bad">> (not in the grammar) | <<"big">> (a quantity beyond 20 digits)
+RECURSIVE XDurFrom(_, _, _, _)
+XDurFrom(t, i, minRank, acc) ==
+  IF i > Len(t) THEN <<"ok", acc>>
+  ELSE LET j == XFirstNonDigit(t, i)
+       IN IF j = i \/ j > Len(t) THEN <<"bad">>                 \* unit without quantity / quantity without unit
+          ELSE LET isMs == t[j] = 109 /\ j < Len(t) /\ t[j + 1] = 115
+                   rank == CASE t[j] = 100 -> 1
+                             [] t[j] = 104 -> 2
+                             [] t[j] = 109 -> (IF isMs THEN 5 ELSE 3)
+                             [] t[j] = 115 -> 4
+                             [] OTHER -> 0
+               IN IF rank = 0 \/ rank < minRank THEN <<"bad">>
+                  ELSE LET q == XNat(Slice(t, i, j - 1))
+                           acc2 == IF q[1] = "ok" THEN AddM(acc, MulM(q[2], NatLimbs(XUnitMs(rank)))) ELSE acc
+                           rest == XDurFrom(t, IF isMs THEN j + 2 ELSE j + 1, rank + 1, acc2)
+                       IN IF rest[1] = "bad" THEN rest
+                          ELSE IF q[1] = "big" THEN <<"big">> ELSE rest
+
+XParseDuration(s) ==
+  LET neg == Len(s) > 0 /\ s[1] = 45
+      body == IF neg THEN Slice(s, 2, Len(s)) ELSE s
+  IN IF Len(body) = 0 THEN ExtErr
+     ELSE LET r == XDurFrom(body, 1, 1, <<0>>)
+          IN IF r[1] # "ok" THEN ExtErr
+             ELSE LET v == Mk(neg, r[2])
+                  IN IF v[1] = "ok" THEN ExtOk(XDurV(v[2])) ELSE ExtErr
+
+XPrintDuration(x) == XPrintI64(x) \o <<109, 115>>
+
+\* conversions truncate toward zero
+XDurTo(fn, x) ==
+  CASE fn = "toMilliseconds" -> x
+    [] fn = "toSeconds" -> DivTrunc(x, 1000)
+    [] fn = "toMinutes" -> DivTrunc(DivTrunc(x, 1000), 60)
+    [] fn = "toHours" -> DivTrunc(DivTrunc(x, 1000), 3600)
+    [] fn = "toDays" -> DivTrunc(DivTrunc(x, 1000), 86400)
+
+\* toDate: the instant of 00:00:00 UTC of the same day = floor to a multiple of a day
+\* (an error when that instant is below the i64 range); toTime: the non-negative rest.
+XToDate(x) == LET r == Mul(XDayIndex(x), OfInt(XDayMs))
+              IN IF r[1] = "ok" THEN ExtOk(XDtV(r[2])) ELSE ExtErr
+XToTime(x) == ExtOk(XDurV(OfInt(XTimeOfDay(x))))
+
+----------------------------------------------------------------------------
+XCtors == {"decimal", "ip", "datetime", "duration"}
+XDecCmps == {"lessThan", "lessThanOrEqual", "greaterThan", "greaterThanOrEqual"}
+XIpTests == {"isIpv4", "isIpv6", "isLoopback", "isMulticast"}
+XDurConvs == {"toMilliseconds", "toSeconds", "toMinutes", "toHours", "toDays"}
+XArity(fn) == IF fn \in XCtors \cup XIpTests \cup XDurConvs \cup {"toDate", "toTime"} THEN 1 ELSE 2
+XKnownFns == XCtors \cup XDecCmps \cup XIpTests \cup XDurConvs
+             \cup {"isInRange", "offset", "durationSince", "toDate", "toTime"}
+
+XChecked(r, mk(_)) == IF r[1] = "ok" THEN ExtOk(mk(r[2])) ELSE ExtErr
+
 ExtCall(fn, args) ==
-  CASE fn = "decimal" ->
-         IF Len(args) # 1 \/ ~IsStrV(args[1]) THEN ExtTypeErr ELSE ParseDecimal(args[1][2])
-    [] fn \in {"lessThan", "lessThanOrEqual", "greaterThan", "greaterThanOrEqual"} ->
-         IF Len(args) # 2 THEN ExtTypeErr ELSE DecimalCmp(fn, args[1], args[2])
-    [] OTHER -> <<"err", "unsupported">>
+  IF fn \notin XKnownFns THEN <<"err", "unknownFn">>
+  ELSE IF Len(args) # XArity(fn) THEN ExtArityErr
+  ELSE
+    CASE fn \in XCtors ->
+           IF ~IsStrV(args[1]) THEN ExtTypeErr
+           ELSE (CASE fn = "decimal" -> ParseDecimal(args[1][2])
+                   [] fn = "ip" -> XParseIp(args[1][2])
+                   [] fn = "datetime" -> XParseDatetime(args[1][2])
+                   [] fn = "duration" -> XParseDuration(args[1][2]))
+      [] fn \in XDecCmps -> DecimalCmp(fn, args[1], args[2])
+      [] fn \in XIpTests ->
+           IF ~IsExtOf(args[1], "ipaddr") THEN ExtTypeErr
+           ELSE ExtOk(XBoolV(CASE fn = "isIpv4" -> args[1][3] = 4
+                               [] fn = "isIpv6" -> args[1][3] = 6
+                               [] fn = "isLoopback" -> XIsLoopback(args[1])
+                               [] fn = "isMulticast" -> XIsMulticast(args[1])))
+      [] fn = "isInRange" ->
+           IF ~(IsExtOf(args[1], "ipaddr") /\ IsExtOf(args[2], "ipaddr")) THEN ExtTypeErr
+           ELSE ExtOk(XBoolV(XIpInRange(args[1], args[2])))
+      [] fn = "offset" ->
+           IF ~(IsExtOf(args[1], "datetime") /\ IsExtOf(args[2], "duration")) THEN ExtTypeErr
+           ELSE XChecked(Add(args[1][3], args[2][3]), XDtV)
+      [] fn = "durationSince" ->
+           IF ~(IsExtOf(args[1], "datetime") /\ IsExtOf(args[2], "datetime")) THEN ExtTypeErr
+           ELSE XChecked(Sub(args[1][3], args[2][3]), XDurV)
+      [] fn = "toDate" -> IF ~IsExtOf(args[1], "datetime") THEN ExtTypeErr ELSE XToDate(args[1][3])
+      [] fn = "toTime" -> IF ~IsExtOf(args[1], "datetime") THEN ExtTypeErr ELSE XToTime(args[1][3])
+      [] fn \in XDurConvs ->
+           IF ~IsExtOf(args[1], "duration") THEN ExtTypeErr ELSE ExtOk(XLongV(XDurTo(fn, args[1][3])))
 =============================================================================
